@@ -46,7 +46,7 @@ var pkgClauseRe = regexp.MustCompile(`(?m)^package (\w+)`)
 
 func init() {
 	register("C20", func(c *engine.Ctx) {
-		c.Rule = "sets of 1..4 schema files in up to three directories, each with its own $id, distinct type names, acyclic cross-file references (to a file root or to a file's definition), and a package + output file mapped per id (some sharing a package, some sharing a file); the CLI binary is run in a sandbox for every argument order (all permutations up to 3 files, 8 sampled for 4) and once more with an unrelated schema added. Judged: exit 0; every output file byte-identical across argument orders; each schema's root type and each of its definitions is declared exactly once, in the file mapped to its id, under the mapped package clause (sets in which an earlier file's definition is named like a later file's root type are judged on the definitions only: K15); a cross-package reference is written pkg.Name with a matching import; all emitted packages build together (go build ./...); adding the unrelated file changes no other output. Distinct = distinct (file count, sharing pattern, reference pattern)."
+		c.Rule = "sets of 1..4 schema files in up to three directories (some sets: the same stem with different extensions in one directory, thing.json / thing.yaml / thing.yml, with the matching --resolve-extension flags), each with its own $id, distinct type names, acyclic cross-file references (to a file root or to a file's definition), and a package + output file mapped per id (some sharing a package, some sharing a file); the CLI binary is run in a sandbox for every argument order (all permutations up to 3 files, 8 sampled for 4) and once more with an unrelated schema added. Judged: exit 0; every output file byte-identical across argument orders; each schema's root type and each of its definitions is declared exactly once, in the file mapped to its id, under the mapped package clause (sets in which an earlier file's definition is named like a later file's root type are judged on the definitions only: K15); a cross-package reference is written pkg.Name with a matching import; all emitted packages build together (go build ./...); adding the unrelated file changes no other output. Distinct = distinct (file count, sharing pattern, reference pattern)."
 		c.Proofs([]string{"GJS.Props.C20"}, []string{
 			"GJS.Props.C20.route_by_mapping", "GJS.Props.C20.route_default", "GJS.Props.C20.route_independent_of_other_mappings",
 			"GJS.Props.C20.begin_same_file_same_pkg_shares", "GJS.Props.C20.begin_same_file_other_pkg_conflicts", "GJS.Props.C20.begin_conflict_symmetric",
@@ -66,9 +66,16 @@ func init() {
 			dirs := []string{"schemas", "schemas/sub", "other"}
 			onePkg := c.R.P(0.3)
 			var files []c20File
+			// same stem, different extension, same directory (thing.json / thing.yaml / thing.yml), with the matching
+			// --resolve-extension flags: each file is its own schema
+			sameStem := n >= 2 && n <= 3 && c.R.P(0.35)
+			stemDir := core.Pick(c.R, dirs)
 			for i := 0; i < n; i++ {
 				name := fmt.Sprintf("file%c", 'a'+i)
 				f := c20File{path: core.Pick(c.R, dirs) + "/" + name + ".json", id: "urn:" + name, root: "Root" + strings.ToUpper(name[4:])}
+				if sameStem {
+					f.path = stemDir + "/thing" + []string{".json", ".yaml", ".yml"}[i]
+				}
 				if onePkg {
 					f.pkg = "example.com/m/out/all"
 					if c.R.P(0.5) {
@@ -118,6 +125,9 @@ func init() {
 				schema: M{"$id": "urn:unrelated", "type": "object", "properties": M{"z": M{"type": "number"}}}}
 			flagsFor := func(fs []c20File) []string {
 				var a []string
+				if sameStem {
+					a = append(a, "--resolve-extension", ".json", "--resolve-extension", ".yaml", "--resolve-extension", ".yml")
+				}
 				for _, f := range fs {
 					a = append(a, "--schema-package", f.id+"="+f.pkg, "--schema-output", f.id+"="+f.out, "--schema-root-type", f.id+"="+f.root)
 				}
@@ -144,7 +154,7 @@ func init() {
 			}
 			var ref map[string]string
 			var refWD string
-			shape := fmt.Sprintf("n=%d onePkg=%v coincide=%v refs=%s", n, onePkg, coincide, refPattern)
+			shape := fmt.Sprintf("n=%d onePkg=%v coincide=%v sameStem=%v refs=%s", n, onePkg, coincide, sameStem, refPattern)
 			replayBase := M{"kind": "cli-multi", "files": func() map[string]string {
 				m := map[string]string{}
 				for _, f := range files {
